@@ -91,6 +91,22 @@ def machine_shard(arg):
 
 # ------------------------------------------------------------------ (ii) entry points
 
+SHAPES = ("mapping", "pairs", "zip", "mapping+kw")
+
+
+def shaped(method, d, shape):
+    """call a render entry point with the data in one of the argument shapes dict() accepts"""
+    if shape == "mapping":
+        return method(dict(d))
+    if shape == "pairs":
+        return method(list(d.items()))
+    if shape == "zip":
+        return method(zip(list(d), list(d.values()), strict=True))
+    keys = list(d)
+    half = len(keys) // 2
+    return method({k: d[k] for k in keys[:half]}, **{k: d[k] for k in keys[half:]})
+
+
 def entry_outcomes(it, scratch):
     import jinja2
 
@@ -135,6 +151,11 @@ def entry_outcomes(it, scratch):
         with open(path, encoding="utf-8", newline="") as f:
             return f.read()
     res["dump-path"] = via(dump_path)
+    # every shape of arguments the dict constructor accepts ("the same arguments as the dict constructor")
+    for shape in SHAPES:
+        res[f"render/{shape}"] = via(lambda t, d, shape=shape: shaped(t.render, d, shape))
+        res[f"generate/{shape}"] = via(lambda t, d, shape=shape: "".join(shaped(t.generate, d, shape)))
+        res[f"stream/{shape}"] = via(lambda t, d, shape=shape: "".join(shaped(t.stream, d, shape)))
     res["module-str"] = via(lambda t, d: str(t.make_module(d)))
     res["module-html"] = via(lambda t, d: str(t.make_module(d).__html__()))
 
@@ -160,6 +181,15 @@ def entry_outcomes(it, scratch):
             return "".join([x async for x in t.generate_async(**d)])
         return e4.run(consume())
     res["generate_async"] = avia(gen_async)
+
+    for shape in SHAPES:
+        res[f"render_async/{shape}"] = avia(lambda t, d, shape=shape: e4.run(shaped(t.render_async, d, shape)))
+
+        def gen_async_shaped(t, d, shape=shape):
+            async def consume():
+                return "".join([x async for x in shaped(t.generate_async, d, shape)])
+            return e4.run(consume())
+        res[f"generate_async/{shape}"] = avia(gen_async_shaped)
 
     def mod_async(t, d):
         async def mk():
